@@ -48,7 +48,7 @@ void harness(void)
 	ASSUME(buf != NULL || BUFLEN == 0);
 	n = lha_decoder_read(&obj.d, buf, BUFLEN);
 	CHECK(n <= BUFLEN, "C09: a read of k bytes returns at most k");
-	CHECK(n <= slen - spos, "C14: the bytes returned never pass the declared length");
+	CHECK(n <= slen - spos, "C13/C14: the bytes returned never pass the declared length");
 	CHECK(obj.d.stream_pos == spos + n && obj.d.stream_pos <= obj.d.stream_length, "C14: reported length advances by exactly the bytes returned");
 	CHECK(obj.d.outbuf_pos <= obj.d.outbuf_len && obj.d.outbuf_len <= MAXR, "Inv re-established (internal buffer cursor within the method's max_read)");
 	if (n < BUFLEN) CHECK(n == slen - spos || obj.d.decoder_failed, "C14: a read comes back short only at the declared end or after the method ran dry");
